@@ -23,6 +23,7 @@
    must< R > against sor< R, raise< R > > UP TO the error position (C09_must_expansion_*: same success, never a local
    failure, same exception of R, otherwise parse_error for the same rule R, the expansion at the start position and
    must< R > at the position of a cursor reached from the start) ;
+   must< R1, ..., Rn > (= seq< must< R >... >) against seq< sor< R, raise< R > >... > up to positions (C09_must_pack_*, pos_rel) ;
    rematch< R, S... > and minus< M, S > against the direct formalisation of their prose (EquivSpanSpec.v: the
    span-restricted evaluation), soundness and completeness ;
    eolf == sor< eof, eol > (every eol policy) ; everything == until< eof, any > ;
@@ -45,11 +46,9 @@
    every run (C09_alias_schemas: 45 rule/clause pairs).
    Also kept at behaviour level (closures): strict< R1, R2 >, rep_opt< Num, R >.
    NOT YET PROVED in Coq (they stay covered by the twin oracle of lib/props_c09.py, which runs the real
-   library on the rule and on the expansion produced from the reference text): list_tail< R, S, P > first clause,
-   must< R... > for several R against seq< sor< R, raise< R > >... > (follows the single-rule statement only up to
-   positions), eol == sor< one< '\n' >, string< '\r', '\n' > > (lf_crlf only, byte inputs only), ranges for the multi-byte
+   library on the rule and on the expansion produced from the reference text): list_tail< R, S, P > first clause, eol == sor< one< '\n' >, string< '\r', '\n' > > (lf_crlf only, byte inputs only), ranges for the multi-byte
    decoders, contrib rules. *)
-From PegtlV Require Import Base Decode Grammar Engine EngineFacts AtomFacts Mono Equiv EquivFacts EquivEval EquivHeads EquivTable EquivBisim EquivAlias EquivHeads2 EquivTable2 EquivMust EquivSpanSpec EquivSpan EquivTableU EquivCong EquivAtoms EquivAtoms2 EquivShebang EquivAll EquivGen EquivBisim2 EquivAlias2 EquivString.
+From PegtlV Require Import Base Decode Grammar Engine EngineFacts AtomFacts Mono Equiv EquivFacts EquivEval EquivHeads EquivTable EquivBisim EquivAlias EquivHeads2 EquivTable2 EquivMust EquivSpanSpec EquivSpan EquivTableU EquivCong EquivAtoms EquivAtoms2 EquivShebang EquivAll EquivGen EquivBisim2 EquivAlias2 EquivString EquivMust2.
 From PegtlV.gen Require Import AliasC09_gen AliasC09Claims_gen.
 
 (* the verdict of any rule does not depend on apply mode, rewind mode, action/control family, or fuel *)
@@ -263,6 +262,34 @@ Theorem C09_must_expansion_bwd :
   forall f d1 d2 c, eval G C f d2 r2 c = Oof \/ exists f', must_rel r c (eval G C f' d1 r1 c) (eval G C f d2 r2 c).
 Proof. exact must_expansion_bwd. Qed.
 Print Assumptions C09_must_expansion_bwd.
+
+(* must< R1, ..., Rn > (rule_t seq< must< R1 >, ..., must< Rn > >) vs seq< sor< R1, raise< R1 > >, ..., sor< Rn, raise< Rn > > >, and
+   must< R > (rule_t internal::must< R >) vs the reference's seq< sor< R, raise< R > > >, up to positions (pos_rel: same success
+   and cursor, no local failure, the same exception or parse_error for the same rule) *)
+Theorem C09_must_pack_fwd :
+  forall G C, noact_cfg C -> plain_table G -> table_wf G ->
+  forall r1 r2 ms ss, node G r1 HSeq ms -> node G r2 HSeq ss -> Forall2 (must_pair G) ms ss ->
+  forall f d1 d2 c, eval G C f d1 r1 c = Oof \/ exists f', pos_rel (eval G C f d1 r1 c) (eval G C f' d2 r2 c).
+Proof. exact must_pack_fwd. Qed.
+Print Assumptions C09_must_pack_fwd.
+Theorem C09_must_pack_bwd :
+  forall G C, noact_cfg C -> plain_table G -> table_wf G ->
+  forall r1 r2 ms ss, node G r1 HSeq ms -> node G r2 HSeq ss -> Forall2 (must_pair G) ms ss ->
+  forall f d1 d2 c, eval G C f d2 r2 c = Oof \/ exists f', pos_rel (eval G C f' d1 r1 c) (eval G C f d2 r2 c).
+Proof. exact must_pack_bwd. Qed.
+Print Assumptions C09_must_pack_bwd.
+Theorem C09_must1_seq_fwd :
+  forall G C, noact_cfg C -> plain_table G -> table_wf G ->
+  forall r1 r2 s, must_pair G r1 s -> node G r2 HSeq [s] ->
+  forall f d1 d2 c, eval G C f d1 r1 c = Oof \/ exists f', pos_rel (eval G C f d1 r1 c) (eval G C f' d2 r2 c).
+Proof. exact must1_seq_fwd. Qed.
+Print Assumptions C09_must1_seq_fwd.
+Theorem C09_must1_seq_bwd :
+  forall G C, noact_cfg C -> plain_table G -> table_wf G ->
+  forall r1 r2 s, must_pair G r1 s -> node G r2 HSeq [s] ->
+  forall f d1 d2 c, eval G C f d2 r2 c = Oof \/ exists f', pos_rel (eval G C f' d1 r1 c) (eval G C f d2 r2 c).
+Proof. exact must1_seq_bwd. Qed.
+Print Assumptions C09_must1_seq_bwd.
 
 (* rematch< R, S... > against the prose "R matches, and each S matches the input that R matched" (rematch_spec) *)
 Theorem C09_rematch_sound :
